@@ -17,6 +17,8 @@ type ODProfile struct {
 	Slices     bool
 	// FinalDelete may end the scenario with the deletion of the deployment (cascading teardown through the garbage collector).
 	FinalDelete bool
+	// SliceDrift adds a third party that deletes ObjectSlices (only with Slices).
+	SliceDrift bool
 }
 
 // ODGen is the generated ObjectDeployment scenario.
@@ -171,6 +173,9 @@ func GenOD(w *World, prof ODProfile) *Scenario {
 	w.AddAgent(wl)
 	if w.Host != nil {
 		w.AddAgent(&WorkloadAgent{Cluster: "hosted", Policy: wl.Policy, Budget: wl.Budget})
+	}
+	if prof.Slices && prof.SliceDrift {
+		w.AddAgent(&SliceKiller{Budget: 1 + s.Intn(2, "slice-killer-budget")})
 	}
 	w.AddAgent(&GCAgent{Cluster: "mgmt"})
 	return sc
